@@ -208,8 +208,8 @@ Section SpVec.
                - unfold ventry. rewrite entry_psum, (psum_gsum o). apply gsum_ext. intros e He.
                  destruct (Bnd e He). unfold key_eq. eqb_cases.
                - apply gsum_false. intros e _. unfold key_eq. eqb_cases. }
-             rewrite G.
-             destruct (Nat.eqb_spec j j0) as [->|Hne].
+             rewrite G. clear G.
+             destruct (Nat.eqb_spec j j0) as [Ej|Hne]; [subst j|].
              ++ destruct (Nat.leb_spec (S j0) j0); [lia|]. destruct (Nat.leb_spec j0 j0); [|lia].
                 destruct (Nat.ltb_spec j0 (j0 + S (length r))); [|lia]. cbn [andb].
                 rewrite Nat.sub_diag. cbn [nth]. ring.
@@ -239,6 +239,277 @@ Section SpVec.
     - unfold C13Sparse.sp_is. cbn [sp_m sp_n]. splits; try reflexivity; [exact V|].
       intros i j Hi Hj. rewrite entry_psum. cbn [sp_st]. rewrite C5. cbn [Nat.leb Nat.add].
       destruct (Nat.ltb_spec j (length vs)); [|lia]. cbn [andb]. now rewrite Nat.sub_0_r.
-    - unfold sp_nnz. cbn [sp_st]. exact C4.
+  Qed.
+
+  (* ---------- SpVec constructors ---------- *)
+  Theorem sv_zero_spec d : sv_is (sv_zero d) d (fun _ => 0).
+  Proof. unfold sv_is, C13Sparse.sp_is, sv_zero. cbn [sp_m sp_n]. splits; reflexivity. Qed.
+
+  Theorem sv_unit_spec n i :
+    match sv_unit o n i with
+    | Some v => (i < n)%nat /\ sv_is v n (fun k => if k =? i then 1 else 0)
+    | None => (n <= i)%nat
+    end.
+  Proof.
+    unfold sv_unit, try_csc, csc_validb. cbn [in_bounds forallb sortedb e_row e_col fst snd andb].
+    destruct (Nat.ltb_spec i n) as [H|H]; cbn [andb obind]; [|exact H].
+    split; [exact H|]. unfold sv_is, C13Sparse.sp_is. cbn [sp_m sp_n]. splits; try reflexivity.
+    - apply sp_wf_iff. cbn [sp_m sp_n sp_st]. split; [|repeat constructor].
+      apply in_bounds_iff. intros e [<-|[]]. cbn [e_row e_col fst snd]. lia.
+    - intros k c Hk Hc. replace c with 0%nat by lia. unfold entry. cbn [sp_st esum e_row e_col e_val fst snd].
+      unfold key_eq. rewrite Nat.eqb_refl, andb_true_r, (Nat.eqb_sym i k). destruct (k =? i); ring.
+  Qed.
+
+  Lemma col0_in (es : list (nat * R)) e : In e (col0 es) <-> exists ix, In ix es /\ e = (fst ix, 0%nat, snd ix).
+  Proof.
+    unfold col0. rewrite in_map_iff. split; intros [ix [H1 H2]]; exists ix; (split; [|assumption]) || split; auto.
+  Qed.
+
+  Theorem sv_from_entries_spec d (es : list (nat * R)) :
+    match sv_from_entries o d es with
+    | Some v => (forall ix, In ix es -> snd ix <> 0 -> (fst ix < d)%nat) /\
+                sv_is v d (fun i => esum o (col0 es) i 0)
+    | None => exists ix, In ix es /\ snd ix <> 0 /\ (d <= fst ix)%nat
+    end.
+  Proof.
+    unfold sv_from_entries. pose proof (sp_from_entries_spec o L d 1 (col0 es)) as S.
+    destruct (sp_from_entries o d 1 (col0 es)) as [a|]; cbn [obind].
+    - destruct S as (S1 & (S2 & S3 & S4 & S5) & _). rewrite sv_new_some by exact S3. split.
+      + intros ix Hix Hv. specialize (S1 (fst ix, 0%nat, snd ix)). cbn [e_row e_col e_val fst snd] in S1.
+        apply S1; [|exact Hv]. apply col0_in. now exists ix.
+      + unfold sv_is, C13Sparse.sp_is. splits; try assumption.
+        intros i c Hi Hc. replace c with 0%nat by lia. apply S5; lia.
+    - destruct S as [e [He [Hv Hn]]]. apply col0_in in He. destruct He as [ix [Hix ->]].
+      cbn [e_row e_col e_val fst snd] in *. exists ix. splits; try assumption. lia.
+  Qed.
+
+  Theorem sv_from_vec_spec (l : list R) :
+    exists v, sv_from_vec o l = Some v /\ sv_is v (length l) (fun i => nth i l 0).
+  Proof.
+    unfold sv_from_vec. pose proof (sv_from_entries_spec (length l) (enumerate l)) as S.
+    destruct (sv_from_entries o (length l) (enumerate l)) as [v|].
+    - exists v. split; [reflexivity|]. destruct S as (_ & S). eapply sv_is_ext; [exact S|].
+      intros i Hi. unfold col0. rewrite (enumerate_map R 0 l), map_map. cbn [fst snd].
+      rewrite esum_psum, (psum_map_seq o L). cbn [e_row e_col e_val fst snd].
+      rewrite (sum_ext o (length l) _ (fun k => if k =? i then nth k l 0 else 0)).
+      + now rewrite (sum_delta o L).
+      + intros k _. unfold key_eq. now rewrite andb_true_r.
+    - exfalso. destruct S as [ix [Hix [_ Hd]]]. rewrite (enumerate_map R 0 l) in Hix.
+      apply in_map_iff in Hix. destruct Hix as [k [<- Hk]]. apply in_seq in Hk. cbn [fst] in Hd. lia.
+  Qed.
+
+  Lemma col0_sorted (es : list (nat * R)) :
+    StronglySorted klt (col0 es) <-> StronglySorted lt (map fst es).
+  Proof.
+    induction es as [|ix r IH]; cbn [col0 map]; [split; constructor|].
+    split; intros S; apply StronglySorted_inv in S; destruct S as [S F]; constructor.
+    - now apply IH.
+    - apply Forall_forall. intros x Hx. apply in_map_iff in Hx. destruct Hx as [iy [<- Hy]].
+      rewrite Forall_forall in F. specialize (F (fst iy, 0%nat, snd iy)).
+      assert (Hin : In (fst iy, 0%nat, snd iy) (map (fun ix0 => (fst ix0, 0%nat, snd ix0)) r)).
+      { apply in_map_iff. now exists iy. }
+      specialize (F Hin). unfold C13SpBase.klt in F. cbn [e_row e_col fst snd] in F. apply key_lt_spec in F. lia.
+    - now apply IH.
+    - apply Forall_forall. intros e He. apply in_map_iff in He. destruct He as [iy [<- Hy]].
+      rewrite Forall_forall in F. specialize (F (fst iy) (in_map fst r iy Hy)).
+      unfold C13SpBase.klt. cbn [e_row e_col fst snd]. apply key_lt_spec. lia.
+  Qed.
+
+  (* from_sorted_entries keeps zero values; the indices must be in range and strictly increasing *)
+  Theorem sv_from_sorted_entries_spec d (es : list (nat * R)) :
+    match sv_from_sorted_entries d es with
+    | Some v => ((forall ix, In ix es -> (fst ix < d)%nat) /\ StronglySorted lt (map fst es)) /\
+                sv_is v d (fun i => esum o (col0 es) i 0) /\ sp_nnz v = length es
+    | None => ~ ((forall ix, In ix es -> (fst ix < d)%nat) /\ StronglySorted lt (map fst es))
+    end.
+  Proof.
+    unfold sv_from_sorted_entries.
+    destruct (forallb (fun ix => fst ix <? d) es) eqn:Eb.
+    - rewrite forallb_forall in Eb.
+      assert (B : forall ix, In ix es -> (fst ix < d)%nat) by (intros ix H; now apply Nat.ltb_lt, Eb).
+      assert (IB : in_bounds d 1 (col0 es) = true).
+      { apply in_bounds_iff. intros e He. apply col0_in in He. destruct He as [ix [Hix ->]].
+        cbn [e_row e_col fst snd]. split; [now apply B|lia]. }
+      unfold try_csc, csc_validb. rewrite IB. cbn [andb].
+      destruct (sortedb (col0 es)) eqn:Es; cbn [obind].
+      + apply sortedb_iff in Es. rewrite sv_new_some by reflexivity. splits.
+        * exact B.
+        * now apply col0_sorted.
+        * unfold sv_is, C13Sparse.sp_is. cbn [sp_m sp_n]. splits; try reflexivity.
+          -- apply sp_wf_iff. cbn [sp_m sp_n sp_st]. now split.
+          -- intros i c Hi Hc. replace c with 0%nat by lia. reflexivity.
+        * unfold sp_nnz, col0. cbn [sp_st]. apply map_length.
+      + intros [_ S]. apply col0_sorted, sortedb_iff in S. congruence.
+    - intros [B _]. assert (forallb (fun ix => fst ix <? d) es = true); [|congruence].
+      apply forallb_forall. intros ix H. now apply Nat.ltb_lt, B.
+  Qed.
+
+  (* ---------- extract and what is built on it ---------- *)
+  Definition vsel (f : nat -> fres) (i : nat) (e : ent) : bool :=
+    match f (e_row e) with FTo i' _ => i' =? i | _ => false end.
+
+  Lemma sv_extract_spec v d f :
+    (forall e, In e (sp_st v) -> f (e_row e) <> FPanic) ->
+    (forall e i' c, In e (sp_st v) -> f (e_row e) = FTo i' c -> (i' < d)%nat) ->
+    exists w, sv_extract o v d f = Some w /\ sp_m w = d /\ sp_n w = 1%nat /\ sp_wf w /\
+              forall i, ventry o w i = gsum (vsel f i) (sp_st v).
+  Proof.
+    intros NP B. unfold sv_extract. pose proof (fmap_p_spec o (fun i _ => f i) (sp_st v)) as F.
+    destruct (fmap_p (fun i _ => f i) (sp_st v)) as [es|].
+    - cbn [obind]. destruct F as (_ & F2 & F3).
+      destruct (sv_assemble_ok d (map (fun e : ent => (e_row e, 0%nat, e_val e)) es)) as [w (Ew & Nw & W1 & W2 & W3 & W5)].
+      { intros e' He'. apply in_map_iff in He'. destruct He' as [x [<- Hx]]. cbn [e_row e_col fst snd].
+        split; [|reflexivity]. destruct (F3 x Hx) as [e [He [K _]]]. now apply (B e _ _ He K). }
+      rewrite Ew. cbn [obind]. rewrite Nw. exists w. splits; try assumption; try reflexivity.
+      intros i. unfold ventry. rewrite entry_psum, W5, (gsum_map_key o).
+      rewrite <- (psum_gsum o (fun i' _ => key_eq i' 0 i 0)), F2, (psum_gsum o).
+      apply gsum_ext. intros e _. unfold fsel, vsel. destruct (f (e_row e)); try reflexivity.
+      unfold key_eq. now rewrite andb_true_r.
+    - exfalso. destruct F as [e [He K]]. now apply (NP e He).
+  Qed.
+
+  Lemma sv_extract_panic v d f e : In e (sp_st v) -> f (e_row e) = FPanic -> sv_extract o v d f = None.
+  Proof.
+    intros He K. unfold sv_extract. pose proof (fmap_p_spec o (fun i _ => f i) (sp_st v)) as F.
+    destruct (fmap_p (fun i _ => f i) (sp_st v)) as [es|]; [|reflexivity].
+    exfalso. destruct F as (F1 & _). now apply (F1 e He).
+  Qed.
+
+  Lemma ventry_gsum v i : vec_wf v -> ventry o v i = gsum (fun e => e_row e =? i) (sp_st v).
+  Proof.
+    intros [W N]. unfold ventry. rewrite entry_psum, (psum_gsum o). apply gsum_ext. intros e He.
+    rewrite (sv_col0 v e W N He). unfold key_eq. now rewrite andb_true_r.
+  Qed.
+
+  Lemma vec_rows v e : vec_wf v -> In e (sp_st v) -> (e_row e < sp_m v)%nat.
+  Proof.
+    intros [W _] He. pose proof (proj1 (sp_wf_iff v) W) as [B _]. now destruct (proj1 (in_bounds_iff _ _ _) B e He).
+  Qed.
+
+  Theorem sv_permute_spec v p : vec_wf v -> is_perm p -> length p = sv_dim v ->
+    exists w, sv_permute o v p = Some w /\ sv_dim w = sv_dim v /\ vec_wf w /\
+      forall i, (i < sv_dim v)%nat -> ventry o w (pat p i) = ventry o v i.
+  Proof.
+    intros V Pp Lp. unfold sv_permute, sv_dim in *.
+    set (f := fun i => match perm_at p i with Some i' => FTo i' 0 | None => FPanic end).
+    destruct (sv_extract_spec v (sp_m v) f) as [w (Ew & W1 & W2 & W3 & W4)].
+    - intros e He. unfold f. rewrite perm_at_pat by (rewrite Lp; now apply vec_rows). discriminate.
+    - intros e i' c He K. unfold f in K. rewrite perm_at_pat in K by (rewrite Lp; now apply vec_rows).
+      inversion K; subst. rewrite <- Lp. apply pat_lt; [exact Pp|]. rewrite Lp. now apply vec_rows.
+    - exists w. splits; try assumption; try (split; assumption). intros i Hi. rewrite W4, (ventry_gsum v i V).
+      apply gsum_ext. intros e He. unfold vsel, f. pose proof (vec_rows v e V He) as Hr.
+      rewrite perm_at_pat by lia.
+      destruct (Nat.eqb_spec (e_row e) i) as [->|Hne]; [apply Nat.eqb_refl|].
+      apply Nat.eqb_neq. intros E. apply Hne. apply (pat_inj p); try assumption; lia.
+  Qed.
+
+  (* subvec(s..e): dimension e - s (a panic when e < s); positions beyond the dimension of v read as 0 *)
+  Theorem sv_subvec_spec v s e : vec_wf v ->
+    match sv_subvec o v s e with
+    | Some w => (s <= e)%nat /\ sv_is w (e - s) (fun i => ventry o v (s + i))
+    | None => (e < s)%nat
+    end.
+  Proof.
+    intros V. unfold sv_subvec. destruct (Nat.ltb_spec e s) as [H|H]; [exact H|].
+    set (f := fun i => if (s <=? i) && (i <? e) then FTo (i - s) 0 else FSkip).
+    destruct (sv_extract_spec v (e - s) f) as [w (Ew & W1 & W2 & W3 & W4)].
+    - intros x _. unfold f. destruct ((s <=? e_row x) && (e_row x <? e)); discriminate.
+    - intros x i' c _ K. unfold f in K.
+      destruct (Nat.leb_spec s (e_row x)); destruct (Nat.ltb_spec (e_row x) e); cbn [andb] in K; try discriminate.
+      inversion K; subst. lia.
+    - rewrite Ew. split; [exact H|]. unfold sv_is, C13Sparse.sp_is. splits; try assumption.
+      intros i c Hi Hc. replace c with 0%nat by lia. fold (ventry o w i). rewrite W4, (ventry_gsum v _ V).
+      apply gsum_ext. intros x _. unfold vsel, f.
+      destruct (Nat.leb_spec s (e_row x)); destruct (Nat.ltb_spec (e_row x) e); cbn [andb]; eqb_cases.
+  Qed.
+
+  Theorem sv_stack_spec v w : vec_wf v -> vec_wf w ->
+    exists r, sv_stack o v w = Some r /\
+      sv_is r (sv_dim v + sv_dim w) (fun i => if i <? sv_dim v then ventry o v i else ventry o w (i - sv_dim v)).
+  Proof.
+    intros V W. unfold sv_stack, sv_dim.
+    match goal with |- context [sp_from_entries o ?d 1 ?es] =>
+      destruct (sv_assemble_ok d es) as [r (Er & Nr & R1 & R2 & R3 & R5)] end.
+    { intros e He. apply in_app_iff in He. destruct He as [He|He]; apply in_map_iff in He;
+        destruct He as [x [<- Hx]]; apply nz_in in Hx; try exact L; destruct Hx as [Hx _]; cbn [e_row e_col fst snd].
+      - pose proof (vec_rows v x V Hx). lia.
+      - pose proof (vec_rows w x W Hx). lia. }
+    rewrite Er. cbn [obind]. rewrite Nr. exists r. split; [reflexivity|].
+    unfold sv_is, C13Sparse.sp_is. splits; try assumption.
+    intros i c Hi Hc. replace c with 0%nat by lia.
+    rewrite entry_psum, R5, (psum_app o L), !(gsum_map_key o), !(gsum_nz o L).
+    destruct (Nat.ltb_spec i (sp_m v)) as [H|H].
+    - rewrite (gsum_false o (fun e => key_eq (sp_m v + e_row e) 0 i 0)) by (intros x _; unfold key_eq; eqb_cases).
+      rewrite (ventry_gsum v i V). transitivity (gsum (fun e => e_row e =? i) (sp_st v)); [|reflexivity].
+      rewrite <- (radd_0_l o L (gsum (fun e => e_row e =? i) (sp_st v))) at 2.
+      rewrite (radd_comm o L). f_equal. apply gsum_ext. intros x _. unfold key_eq. now rewrite andb_true_r.
+    - rewrite (gsum_false o (fun e => key_eq (e_row e) 0 i 0)).
+      2:{ intros x Hx. pose proof (vec_rows v x V Hx). unfold key_eq. eqb_cases. }
+      rewrite (ventry_gsum w _ W), (radd_0_l o L). apply gsum_ext. intros x _. unfold key_eq. eqb_cases.
+  Qed.
+
+  Theorem sv_split_spec v k : vec_wf v ->
+    match sv_split o v k with
+    | Some (a, b) => (k <= sv_dim v)%nat /\ sv_is a k (ventry o v) /\
+                     sv_is b (sv_dim v - k) (fun i => ventry o v (k + i))
+    | None => (sv_dim v < k)%nat
+    end.
+  Proof.
+    intros V. unfold sv_split, sv_dim. destruct (Nat.leb_spec k (sp_m v)) as [H|H]; [|exact H].
+    match goal with |- context [sp_from_entries o k 1 ?es] =>
+      destruct (sv_assemble_ok k es) as [a (Ea & Na & A1 & A2 & A3 & A5)] end.
+    { intros e He. apply in_map_iff in He. destruct He as [x [<- Hx]]. apply filter_In in Hx.
+      destruct Hx as [_ Hx]. apply Nat.ltb_lt in Hx. cbn [e_row e_col fst snd]. now split. }
+    match goal with |- context [sp_from_entries o (sp_m v - k) 1 ?es] =>
+      destruct (sv_assemble_ok (sp_m v - k) es) as [b (Eb & Nb & B1 & B2 & B3 & B5)] end.
+    { intros e He. apply in_map_iff in He. destruct He as [x [<- Hx]]. apply filter_In in Hx.
+      destruct Hx as [Hin Hx]. apply negb_true_iff, Nat.ltb_ge in Hx. pose proof (vec_rows v x V Hin).
+      cbn [e_row e_col fst snd]. split; [lia|reflexivity]. }
+    rewrite Ea. cbn [obind]. rewrite Na. cbn [obind]. rewrite Eb. cbn [obind]. rewrite Nb. cbn [obind].
+    splits; try assumption.
+    - unfold sv_is, C13Sparse.sp_is. splits; try assumption.
+      intros i c Hi Hc. replace c with 0%nat by lia.
+      rewrite entry_psum, A5, (gsum_map_key o), (gsum_filter o), (ventry_gsum v i V).
+      apply gsum_ext. intros x _. unfold key_eq. destruct (Nat.ltb_spec (e_row x) k); cbn [andb]; eqb_cases.
+    - unfold sv_is, C13Sparse.sp_is. splits; try assumption.
+      intros i c Hi Hc. replace c with 0%nat by lia.
+      rewrite entry_psum, B5, (gsum_map_key o), (gsum_filter o), (ventry_gsum v _ V).
+      apply gsum_ext. intros x _. unfold key_eq. destruct (Nat.ltb_spec (e_row x) k); cbn [andb negb]; eqb_cases.
+  Qed.
+
+  (* ---------- arithmetic ---------- *)
+  Theorem sv_neg_spec v : vec_wf v -> sv_is (sv_neg o v) (sv_dim v) (fun i => rneg o (ventry o v i)).
+  Proof.
+    intros [W N]. destruct (sp_neg_spec o L v W) as [(H1 & H2 & H3 & H4) _]. unfold sv_neg, sv_dim.
+    unfold sv_is, C13Sparse.sp_is. splits; try assumption; try lia.
+    intros i c Hi Hc. replace c with 0%nat by lia. rewrite H4 by lia. reflexivity.
+  Qed.
+
+  Theorem sv_add_spec v w : vec_wf v -> vec_wf w ->
+    match sv_add o v w with
+    | Some r => sv_dim v = sv_dim w /\ sv_is r (sv_dim v) (fun i => radd o (ventry o v i) (ventry o w i))
+    | None => sv_dim v <> sv_dim w
+    end.
+  Proof.
+    intros [Wv Nv] [Ww Nw]. unfold sv_add, sv_dim. pose proof (sp_add_spec o L v w Wv Ww) as S.
+    destruct (sp_add o v w) as [r|]; cbn [obind].
+    - destruct S as ((E1 & E2) & (R1 & R2 & R3 & R4)). rewrite sv_new_some by lia. split; [exact E1|].
+      unfold sv_is, C13Sparse.sp_is. splits; try assumption; try lia.
+      intros i c Hi Hc. replace c with 0%nat by lia. rewrite R4 by lia. reflexivity.
+    - intros E. apply S. split; [exact E|lia].
+  Qed.
+
+  Theorem sv_sub_spec v w : vec_wf v -> vec_wf w ->
+    match sv_sub o v w with
+    | Some r => sv_dim v = sv_dim w /\ sv_is r (sv_dim v) (fun i => rsub o (ventry o v i) (ventry o w i))
+    | None => sv_dim v <> sv_dim w
+    end.
+  Proof.
+    intros [Wv Nv] [Ww Nw]. unfold sv_sub, sv_dim. pose proof (sp_sub_spec o L v w Wv Ww) as S.
+    destruct (sp_sub o v w) as [r|]; cbn [obind].
+    - destruct S as ((E1 & E2) & (R1 & R2 & R3 & R4)). rewrite sv_new_some by lia. split; [exact E1|].
+      unfold sv_is, C13Sparse.sp_is. splits; try assumption; try lia.
+      intros i c Hi Hc. replace c with 0%nat by lia. rewrite R4 by lia. reflexivity.
+    - intros E. apply S. split; [exact E|lia].
   Qed.
 End SpVec.
